@@ -222,7 +222,10 @@ func (ri *RedisInput) syncMeta(ctx context.Context, redisCli *redis.StandaloneRe
 		// 2. output.offset < channel.left and channel.hasRdb :
 		// outSp not in locSp :
 		// 3. channel.right < output.offset :
-		if ri.channel.IsValidOffset(Offset{RunId: locSp.RunId, Offset: outSp.Offset}) {
+		// the cache can only serve the output when both positions are on the same replication id :
+		// after a failover an output position under the previous id may lie beyond the switch offset,
+		// then only the source can tell (PSYNC with the output's own id and offset) whether it is still a prefix
+		if outSp.RunId == locSp.RunId && ri.channel.IsValidOffset(Offset{RunId: locSp.RunId, Offset: outSp.Offset}) {
 			sOffset, isFullSync, rdbSize, err = ri.pSync(redisCli, locSp.ToOffset())
 			if err != nil {
 				return
